@@ -398,6 +398,11 @@ class World:
         # the auth_* calls must end because the connection ended, not because
         # the 30 s auth timer fired: no auth timer unless the case asks for one
         self.tc.auth_timeout = None
+        # the box is shared: the library's 15 s banner/handshake timers must not
+        # end a handshake that is merely slow
+        for t in (self.tc, self.ts):
+            t.banner_timeout = 180
+            t.handshake_timeout = 180
         if self.role == "client":
             self.V, self.P = self.tc, self.ts
         else:
@@ -865,15 +870,20 @@ def run_case(a):
 
     t_begin = time.monotonic()
     phases = res["phases"] = {}
-    w = World(a, rng)
-    try:
-        w.build()
-        phases["build"] = round(time.monotonic() - t_begin, 2)
-        w.prepare()
-        phases["prepare"] = round(time.monotonic() - t_begin, 2)
-    except Exception:
-        w.teardown()
-        return dict(res, status="setup_failed", error=traceback.format_exc()[-1500:])
+    for attempt in (1, 2, 3):
+        w = World(a, rng)
+        try:
+            w.build()
+            phases["build"] = round(time.monotonic() - t_begin, 2)
+            w.prepare()
+            phases["prepare"] = round(time.monotonic() - t_begin, 2)
+            break
+        except Exception:
+            # nothing has been judged yet: a failed setup is retried on a fresh pair
+            w.teardown()
+            res["setup_retries"] = attempt
+            if attempt == 3:
+                return dict(res, status="setup_failed", error=traceback.format_exc()[-1500:])
     res["msgs_before"] = len(w.rec.events)
 
     ncallers = w.spec.get("ncallers", 1)
@@ -959,7 +969,12 @@ def run_case(a):
                        vthread=describe(last["vstack"]) if last["vstack"] else None,
                        pthread=describe(last["pstack"]) if last["pstack"] else None,
                        injector=describe(last["estacks"][0]) if last["estacks"] and last["estacks"][0] else None,
-                       inject_error=inj["error"], relay_gone=w.relay_gone())
+                       inject_error=inj["error"], relay_gone=w.relay_gone(),
+                       v_tail=v_tail(w, res["msgs_before"]), msgs_total=len(w.rec.events),
+                       crashes=[dict(c, victim=(c["ident"] == w.V.ident)) for c in CRASHES],
+                       link_log=None if w.link is None else dict(
+                           ab=[len(x) for x in w.link.ab.log[-4:]], ba=[len(x) for x in w.link.ba.log[-4:]],
+                           pend=(w.link.ab.pending(), w.link.ba.pending())))
             w.teardown()
             return dict(res, status="done")
         res["active_at_call"] = bool(w.V.is_active())
